@@ -281,6 +281,15 @@ def random_op(rng, version, objs, op=None):
                          rand_bytes(rng, 5)))
         aad = rng.choice((None, None, b'', rand_bytes(rng, 9)))
         uid = pick_uid(rng, objs, ('sym',))
+        if op == 'decrypt' and rng.random() < 0.3:
+            # a coherent authenticated decryption that fails only at the last step (the tag does not verify): active
+            # key, GCM, nonce and tag of the right sizes
+            act = [o for o in objs if o.kind == 'sym' and getattr(o, 'state', None) == 'active']
+            if act:
+                return op, op_decrypt(rng.choice(act).uid, rand_bytes(rng, rng.choice((0, 16, 33))),
+                                      cparams(cryptographic_algorithm=E.CryptographicAlgorithm.AES,
+                                              block_cipher_mode=E.BlockCipherMode.GCM, tag_length=16),
+                                      rand_bytes(rng, 12), rng.choice((None, b'aad')), tag=rand_bytes(rng, 16))
         if op == 'encrypt':
             return op, op_encrypt(uid, data, params, iv, aad)
         return op, op_decrypt(uid, data, params, iv, aad,
